@@ -9,6 +9,11 @@
    - usual arithmetic conversions: bool promotes to int, int op float is float;
      int / int truncates towards zero, % has the sign of the dividend; shifts are those
      g++ computes (arithmetic >>, << as multiplication) for counts 0..31.
+   - __redu_floordiv(a, b) / __redu_mod(a, b) are the helper templates of emitter.py: result type
+     decltype(a / b); on integers the truncated quotient / remainder corrected as the C++ text does
+     ([c_floordiv], [c_mod]); on float/double CPython's fmod-based algorithm, which on exact rationals is
+     floor(a / b) and a - b * floor(a / b); a zero divisor is undefined behaviour.  Their arguments are
+     function arguments: g++ evaluates the SECOND one first (observable only when both read inputs).
    - comparisons yield bool; && || ! work on operands converted to bool, left to right,
      short-circuit; operands of the other binary operators are evaluated left to right
      (what g++ -O0 does; the standard leaves the order unspecified).
@@ -124,6 +129,36 @@ Definition csem_bin_k (k : cbop) (a b : cval) : cres cval :=
 
 Definition csem_bin (tok : text) (a b : cval) : cres cval :=
   match bintok tok with Some k => csem_bin_k k a b | None => CStuck end.
+
+(* ---- the helper templates __redu_floordiv / __redu_mod (md = true: __redu_mod) ---- *)
+Definition helper_name (f : text) : option bool :=
+  if text_eqb f t_floordiv then Some false else if text_eqb f t_mod then Some true else None.
+
+(* template <typename T> T __redu_floordiv_impl(T a, T b):
+     T q = a / b;  return ((a % b != 0) && ((a < 0) != (b < 0))) ? q - 1 : q; *)
+Definition c_floordiv (x y : Z) : Z :=
+  let q := Z.quot x y in
+  if negb (Z.rem x y =? 0) && negb (Bool.eqb (x <? 0) (y <? 0)) then q - 1 else q.
+(* template <typename T> T __redu_mod_impl(T a, T b):
+     T m = a % b;  return ((m != 0) && ((m < 0) != (b < 0))) ? m + b : m; *)
+Definition c_mod (x y : Z) : Z :=
+  let m := Z.rem x y in
+  if negb (m =? 0) && negb (Bool.eqb (m <? 0) (y <? 0)) then m + y else m.
+
+Definition csem_helper (md : bool) (a b : cval) : cres cval :=
+  match arith_ty (tag_of a) (tag_of b) with             (* decltype(a / b) *)
+  | Some TInt =>
+      match as_int a, as_int b with
+      | Some x, Some y => if y =? 0 then CUndef else mkint (if md then c_mod x y else c_floordiv x y)
+      | _, _ => CStuck
+      end
+  | Some TFloat =>
+      match as_q a, as_q b with
+      | Some p, Some q => if q_is_zero q then CUndef else mkfloat (if md then qmod p q else qfloor_div p q)
+      | _, _ => CStuck
+      end
+  | _ => CStuck                                         (* no operator/ for these operands: no matching function *)
+  end.
 
 (* ---- unary operators ---- *)
 Definition ctype_un (k : cuop) (t : cty) : option cty :=
@@ -315,7 +350,11 @@ Fixpoint ctype (G : tenv) (c : cexpr) : option cty :=
             | Some ta, Some tb => if cmp_ok ta tb then common_ty ta tb else None
             | _, _ => None
             end
-          else None
+          else
+            match helper_name f, ctype G a, ctype G b with
+            | Some _, Some ta, Some tb => arith_ty ta tb
+            | _, _, _ => None
+            end
       | _ => None
       end
   | CString e => match ctype G e with Some _ => Some TString | None => None end
@@ -434,7 +473,14 @@ Fixpoint ceval (G : tenv) (s : cenv) (c : cexpr) (ins : inputs) {struct c} : cre
             eval_cond (eval_cmp2 PyAst.Lt (ceval G s a) (ceval G s b)) (ceval G s a) (ceval G s b) (ctype G a) (ctype G b) ins
           else if text_eqb f t_max then      (* ((a) > (b) ? (a) : (b)) *)
             eval_cond (eval_cmp2 PyAst.Gt (ceval G s a) (ceval G s b)) (ceval G s a) (ceval G s b) (ctype G a) (ctype G b) ins
-          else CUndef
+          else
+            match helper_name f with
+            | Some md =>                     (* a function call: g++ evaluates the last argument first *)
+                cbind (ceval G s b ins) (fun '(wb, i1) =>
+                cbind (ceval G s a i1) (fun '(wa, i2) =>
+                cbind (csem_helper md wa wb) (fun w => COk (w, i2))))
+            | None => CUndef
+            end
       | _ => CUndef
       end
   | CString e => cbind (ceval G s e ins) (fun '(w, i1) => COk (CStr (string_of w), i1))
